@@ -128,6 +128,28 @@ func H_C14_2_ReceiptView() {
 		}
 		verif.Reach("views-compared")
 	}
+	// block-level views: number of Ethereum transactions and the logs of the block (eth_getLogs / eth_getFilterLogs)
+	cnt := b.GetBlockTransactionCountByNumber(rpctypes.BlockNumber(height))
+	verif.Assert("block-transaction-count-is-the-number-of-admitted-eth-txs", cnt != nil && int(*cnt) == len(want))
+	blockLogs, errLogs := b.GetLogsByHeight(&blk.Height)
+	verif.Assert("block-logs-found", errLogs == nil)
+	if errLogs == nil {
+		var withReceipt []hidx.ViewTx
+		for _, w := range want {
+			if w.HasReceipt {
+				withReceipt = append(withReceipt, w)
+			}
+		}
+		verif.Assert("one-log-list-per-executed-eth-tx", len(blockLogs) == len(withReceipt))
+		if len(blockLogs) == len(withReceipt) {
+			for i, w := range withReceipt {
+				verif.Assert("block-log-view-count", len(blockLogs[i]) == w.NLogs)
+				for k, l := range blockLogs[i] {
+					verif.Assert("block-log-view-indices", l.Index == w.FirstLog+uint(k) && l.TxIndex == uint(w.EthIdx) && l.TxHash == w.Hash && l.BlockNumber == height)
+				}
+			}
+		}
+	}
 	for _, h := range dropped {
 		rc, err := b.GetTransactionReceipt(h)
 		verif.Assert("dropped-tx-has-no-receipt", err == nil && rc == nil)
